@@ -613,6 +613,7 @@ def r4(ctx):
     # writer
     ser, ev, out = eval_writer(m, ci, 'fk5')
     fc = _format_call(out)
+    ctx.need(fc is not None, '_ShapeList.to_crtf', 'line template call not found in the writer value')
     pre = fc.args[1]
     want = "ite((INC in [False, '-']), '-', '')"
     if show(pre, 200) == want:
@@ -874,6 +875,7 @@ def r9(ctx):
         mt = _meta_text_of(ctx, out_t, 'label', {})
         if mt is None:
             # with a constant label and text the writer's value may be the finished text itself
+            rendered = False
             for pc_, v_ in out_t.returns:
                 txt_ = v_.v if isinstance(v_, Const) and isinstance(v_.v, str) else None
                 if txt_ is None:
@@ -881,8 +883,12 @@ def r9(ctx):
                         txt_ = _render(v_, {})
                     except AnalysisError:
                         txt_ = None
+                if txt_ and "'abc'" in txt_:
+                    rendered = True
                 if txt_ and 'label=' in txt_:
                     mt = txt_.strip().splitlines()[-1]
+            if mt is None and not rendered:
+                raise AnalysisError('C11.R9', 'text region with a label', 'the line written for a text region could not be rendered')
     except AnalysisError as exc:
         raise AnalysisError('C11.R9', 'text region with a label', f'writer not reducible: {exc}')
     if mt is None or L not in mt:
